@@ -78,3 +78,7 @@ claim('C18',
       "Bounded symbolic model checking of the kernel fact (a query equal to leaf k's profile gets every vote with correlation 1 through the real correlation kernel and tally_votes, for symbolic profiles, under the property's own precondition; NRA with lemmas 'corr(k,k)=1' and 'corr<=1' discharged on the kernel's output), of get_leaf_means through the file's own cluster/gene tables (every row and gene order, symbolic tables), and exploration of the real run_mapping on real files with a centroid query for every gene order / bootstrap factor / seed / worker count in the bounds.",
       "floats as reals for the kernel fact; single-gene subsets outside (every row is constant there); upstream stages (statistics, reference markers, selection) are not chained in this check - their outputs are covered in C09/C11/C12",
       "DESIGN.md §4 C18")
+CHECKS['C12']['text'] += " The whole stage is also run on real files: select_all_markers on a reference-marker file written by the real reference-marker stage, for every query gene subset / worker count / large-parent threshold in the bounds, compared with the single-worker default run."
+CHECKS['C12']['note'] = "per-parent harness: every input dimension is concrete on each path (tables of bits); genes_at_a_time fixed at its default 1; stage harness: fixed reference data (5 leaves, 6 genes), multiprocessing replaced by the model (workers inline)"
+CHECKS['C11']['text'] += " The assembly of the pair-major and gene-major tables is covered by running the real find_markers_for_all_taxonomy_pairs on real files (solver-chosen cluster sizes, worker count, exact/approximate penetrance, n_valid, gene list): exact transposes, no gene both up and down, cluster-size rule, gene list, direction, strict-threshold completeness / exactness against an oracle computed from the per-cell data, independence of the worker count."
+CHECKS['C14']['text'] += " The reference-marker stage (marker workers and the parallel transposition workers) is under the same fault model on real files: any abnormal worker => the call raises and nothing appears at the requested output path."
